@@ -8,6 +8,7 @@ import (
 	"encoding/json"
 	"fmt"
 	"math/rand"
+	"strings"
 
 	"github.com/cloudwego/dynamicgo/thrift"
 	"github.com/cloudwego/dynamicgo/thrift/generic"
@@ -98,13 +99,13 @@ func (c *c04) runMode(ec EditCase, mode string, desc *thrift.TypeDescriptor) (af
 		hs = append(hs, handle{v: &v})
 	}
 	conv := func(p []PItem) []generic.Path {
-		if mode == "value-name" {
+		if strings.HasPrefix(mode, "value-name") {
 			return toPaths(namePath(p))
 		}
 		return toPaths(p)
 	}
 	logPath := func(p []PItem) []PItem {
-		if mode == "value-name" {
+		if strings.HasPrefix(mode, "value-name") {
 			return namePath(p)
 		}
 		return fixItems(p)
@@ -259,6 +260,30 @@ func (c *c04) run(ec EditCase) {
 	}
 	if hasID {
 		c.runMode(ec, "value-name", td.desc)
+	}
+	// ... and with the descriptor of the ORIGINAL document only (absent ids 3 and 32767 declared as i32): what is inserted by
+	// name need not have the declared type - it is inserted as it is.  The history stops with the first inserting operation
+	// (afterwards the value may not conform to its descriptor any more, which is outside the typed API's promises).
+	sh0 := shapeOf(v0)
+	if sh0.hasConflict() {
+		return
+	}
+	var pre []EditOp
+	for _, op := range ec.Ops {
+		if op.Op == "Fork" || undeclared(sh0, op.Path) {
+			break
+		}
+		pre = append(pre, op)
+		if op.Op == "Set" || op.Op == "SetMany" {
+			break
+		}
+	}
+	if n := len(pre); n > 0 && pre[n-1].Op == "Set" && hasID {
+		if td0 := typedFromShape(sh0); td0.ok {
+			ec0 := ec
+			ec0.Ops = pre
+			c.runMode(ec0, "value-name-orig", td0.desc)
+		}
 	}
 }
 
